@@ -508,18 +508,27 @@ func c14Retry(c *Ctx) {
 		}
 		return false, false
 	})
-	c.verdict(!inCycle || (len(fail) > 0 && cycleCut(fail)), "IssueRetryableHttpRequest:retry-only-failures", req.Pos(), "only transport errors and 5xx responses are retried",
-		"the request can be repeated although it neither failed nor returned a 5xx status")
+	retryStructOK := !inCycle || (len(fail) > 0 && cycleCut(fail))
 	// 4. returns: a non-error return passes the status of the request only when it was not a failure;
 	// the give-up return does not pass a success status
 	okRet := true
 	detail := ""
 	var bad []string
+	repeatAfterOK := false
 	h := &Hooks{
 		MaxVisits: 3,
 		Fork: func(st *State, call *ssa.Call) []map[int]Val {
 			if call != req {
 				return nil
+			}
+			// the request is about to be sent (again): what did the previous attempt return?
+			for k := len(st.Events) - 1; k >= 0; k-- {
+				if st.Events[k].Kind == "outcome:resp" {
+					if st.Events[k].Arg == "200" {
+						repeatAfterOK = true
+					}
+					break
+				}
 			}
 			five, two := int64(503), int64(200)
 			return []map[int]Val{
@@ -549,6 +558,11 @@ func c14Retry(c *Ctx) {
 	Explore(fn, fn.Blocks[0], 0, nil, NewState(), h)
 	c.paths += h.Paths
 	_ = bad
+	// retried only after a failure: structurally (every cycle passes a failure test) or on the
+	// explored paths (no request follows a 200 response) - the latter also reads a condition that
+	// was first stored in a boolean variable
+	c.verdict(retryStructOK || (!repeatAfterOK && !h.Truncated && h.Paths > 0), "IssueRetryableHttpRequest:retry-only-failures", req.Pos(), "only transport errors and 5xx responses are retried",
+		"the request can be repeated although it neither failed nor returned a 5xx status")
 	c.verdict(okRet, "IssueRetryableHttpRequest:returns", fn.Pos(), fmt.Sprintf("%d path(s) explored with 200/503/error responses", h.Paths), detail)
 }
 
